@@ -274,6 +274,37 @@ func windowDropCase(c *vh.Ctx, r *vh.Rand, ww *wal.Writer, atomic bool, tol int6
 	w.finish()
 }
 
+// directed: a burst of appends while the reader is briefly slow (the distribution loop is stuck in
+// one write), every append with DISTINCT payload bytes and lengths; then the reader catches up on an
+// honest wire. Every applied payload must be what the writer appended under that sequence number.
+func burstCase(c *vh.Ctx, r *vh.Rand, ww *wal.Writer, atomic bool, tol int64, no int, path int, n int) {
+	w := newWorld(c, r, ww, atomic, n+8, vh.Pick(r, []int{1, 3, 1024}), tol, no)
+	w.connect()
+	w.sess.stalled = true
+	w.sess.gate.setOpen(false)
+	for i := 0; i < n; i++ {
+		p := make([]byte, r.Range(3, 60))
+		for j := range p {
+			p[j] = byte(r.U64())
+		}
+		p[0] = byte(i + 1)
+		pa := path
+		if pa < 0 {
+			pa = r.Intn(3)
+		}
+		w.appendDirect(0, p, pa)
+	}
+	w.c.Tag("burst-behind-stalled-reader")
+	w.nontriv = true
+	w.sess.stalled = false
+	w.sess.gate.setOpen(true)
+	w.settle()
+	for w.sess != nil && w.sess.alive && len(w.sess.W) > 0 {
+		w.wireStep(true)
+	}
+	w.finish()
+}
+
 // ---------------------------------------------------------------- case generators
 
 // random lockstep case: producers stepped one atomic action at a time.
@@ -388,9 +419,10 @@ func witnessCase(c *vh.Ctx, r *vh.Rand, ww *wal.Writer, atomic bool, tol int64, 
 			if x.entry.Sequence == 0 && w.lastHook != nil {
 				x.entry = w.lastHook
 			}
+			x.pay = append([]byte(nil), x.entry.Payload...)
 			w.holding[1] = x
 			w.assigned[x.entry.Sequence] = true
-			w.op(fmt.Sprintf("a 1 %s", vh.Hex(x.entry.Payload)), fmt.Sprintf("seq=%d", x.entry.Sequence))
+			w.op(fmt.Sprintf("a 1 %s", vh.Hex(x.pay)), fmt.Sprintf("seq=%d", x.entry.Sequence))
 			w.enqueue(1)
 		}
 	}
@@ -428,9 +460,10 @@ func freeCase(c *vh.Ctx, r *vh.Rand, ww *wal.Writer, atomic bool, tol int64, no 
 				switch path {
 				case 0:
 					e := &replication.ReplicateEntry{TimestampUS: 1, Payload: p}
+					cp := append([]byte(nil), p...)
 					w.sender.Replicate(e)
 					mu.Lock()
-					bySeq[e.Sequence] = rec{g, p}
+					bySeq[e.Sequence] = rec{g, cp}
 					mu.Unlock()
 				case 1:
 					w.ww.AppendRaw(p)
@@ -445,9 +478,9 @@ func freeCase(c *vh.Ctx, r *vh.Rand, ww *wal.Writer, atomic bool, tol int64, no 
 	// not needed — thread ids only matter to the model for "not already holding", which any fresh id
 	// per append satisfies; hook-path appends get ids k, k+1, … .
 	next := k
-	w.frec = func(re *replication.ReplicateEntry) {
+	w.frec = func(re *replication.ReplicateEntry, atAppend []byte) {
 		mu.Lock()
-		bySeq[re.Sequence] = rec{next, re.Payload}
+		bySeq[re.Sequence] = rec{next, atAppend}
 		next++
 		mu.Unlock()
 	}
@@ -564,7 +597,7 @@ func freeCase(c *vh.Ctx, r *vh.Rand, ww *wal.Writer, atomic bool, tol int64, no 
 				sAlive = false
 				w.nontriv = true
 				w.fail("healthy-connection-dropped:"+a.out[i][5:],
-					fmt.Sprintf("%d free-running producers, honest wire: the reader dropped the connection (%s) at the sender's frame seq=%d following seq=%d", k, a.out[i], a.seq, w.applied[len(w.applied)-1].seq))
+					fmt.Sprintf("%d free-running producers, honest wire: the reader dropped the connection (%s) at the sender's frame seq=%d (%d applied before)", k, a.out[i], a.seq, len(w.applied)))
 			}
 		}
 	}
@@ -613,6 +646,11 @@ func main() {
 			no++
 			windowDropCase(c, r, ww, atomic, tol, no, iv, wn)
 		}
+	}
+	// (1c) bursts behind a briefly slow reader, through each append path
+	for _, path := range []int{2, 2, 1, 0, -1, 2} {
+		no++
+		burstCase(c, r, ww, atomic, tol, no, path, r.Range(4, 12))
 	}
 	// (2) random lockstep cases (forced schedules + adversary)
 	nLock, nFree, maxK := 120, 24, 4
